@@ -234,6 +234,12 @@ def s3_save_get(props=None):
                            z3.And(z3.Implies(z3.And(z3.Not(b0[1][metak]), ev[2]['bdom'][metak]), ev[2]['bdom'][fullk]),
                                   z3.Implies(oid != rid, z3.Implies(ev[2]['bdom'][om_], ev[2]['bdom'][ok_]))), oc))
         obl.append(Obl('C15/%s/save/at_most_two_puts' % U, 'C15', s1, z3.BoolVal(len(puts) <= 2), oc))
+        for t in [t for t in s1.trace if t['name'] == 'sampling_calculator']:
+            # storage-level sampling is by STORED size: the calculator is given the category, the length of the compressed full object and the recording
+            comp = s1.g.get('compressed', [])
+            obl.append(Obl('C17/%s/save/calculator_is_given_the_stored_compressed_size_and_this_recording' % U, 'C17', s1,
+                           z3.And(z3.BoolVal(len(t['pos']) == 3), z3.Or(*[t['pos'][1] == I(z3.Length(c_)) for c_ in comp]) if comp else z3.BoolVal(False),
+                                  t['pos'][2] == rec) if len(t['pos']) == 3 else z3.BoolVal(False), oc))
         if oc[0] == 'raise':
             calc = [t for t in s1.trace if t['name'] == 'sampling_calculator' and t['outcome'][0] == 'raise']
             obl.append(Obl('C07/%s/save/raises_only_read_only_unserialisable_or_calculator' % U, P, s1,
